@@ -1,0 +1,149 @@
+//! Verification hooks. Compiled only with the cargo feature `verif` (off by default).
+//!
+//! The engine emits events at a few interesting points (move application and undo,
+//! search task boundaries, shared search-cache accesses, move-generator cache lookups).
+//! With no observer installed an emit site costs one relaxed atomic load. Observers are
+//! installed by an external harness; the engine never installs one itself.
+
+use std::hash::{Hash, Hasher};
+use std::sync::atomic::{AtomicBool, Ordering};
+use std::sync::{Arc, RwLock};
+
+use crate::board::Board;
+use crate::chess_move::chess_move::ChessMove;
+
+/// Emitted by `ChessMove::apply` / `ChessMove::undo` (at the enum level, so the standard
+/// move nested inside a promotion is not a separate event).
+pub enum BoardEvent<'a> {
+    BeforeApply(&'a ChessMove, &'a Board),
+    AfterApply(&'a ChessMove, &'a Board, bool),
+    BeforeUndo(&'a ChessMove, &'a Board),
+    AfterUndo(&'a ChessMove, &'a Board, bool),
+}
+
+/// Emitted by the alpha-beta searcher. `Before*` and `TaskBegin` are never emitted while
+/// the engine holds one of its own locks, so an observer may block in them (yield points).
+/// `AfterCacheRead` / `AfterCacheWrite` are emitted while the engine still holds the lock
+/// of the shared cache, so their order is the true order of the cache operations;
+/// observers must not block in them.
+#[derive(Debug, Clone)]
+pub enum SearchEvent {
+    TaskBegin { index: usize },
+    TaskEnd { index: usize },
+    NodeEnter { hash: u64, depth: u8, alpha: i16, beta: i16, maximizing: bool },
+    NodeExit,
+    BeforeCacheRead { key: u64 },
+    AfterCacheRead { key: u64, hit: Option<i16> },
+    BeforeCacheWrite { key: u64, value: i16 },
+    AfterCacheWrite { key: u64, value: i16 },
+}
+
+/// Emitted by `MoveGenerator` when one of its caches is consulted.
+#[derive(Debug, Clone, Copy)]
+pub enum GeneratorEvent {
+    MoveCacheHit { hash: u64, color: u8 },
+    MoveCacheMiss { hash: u64, color: u8 },
+    AttackCacheHit { hash: u64, color: u8 },
+    AttackCacheMiss { hash: u64, color: u8 },
+}
+
+pub type BoardObserver = dyn for<'a> Fn(&BoardEvent<'a>) + Send + Sync;
+pub type SearchObserver = dyn Fn(&SearchEvent) + Send + Sync;
+pub type GeneratorObserver = dyn Fn(&GeneratorEvent) + Send + Sync;
+
+static BOARD_ON: AtomicBool = AtomicBool::new(false);
+static SEARCH_ON: AtomicBool = AtomicBool::new(false);
+static GENERATOR_ON: AtomicBool = AtomicBool::new(false);
+
+static BOARD_OBSERVER: RwLock<Option<Arc<BoardObserver>>> = RwLock::new(None);
+static SEARCH_OBSERVER: RwLock<Option<Arc<SearchObserver>>> = RwLock::new(None);
+static GENERATOR_OBSERVER: RwLock<Option<Arc<GeneratorObserver>>> = RwLock::new(None);
+
+pub fn set_board_observer(observer: Option<Arc<BoardObserver>>) {
+    let mut slot = BOARD_OBSERVER.write().unwrap();
+    BOARD_ON.store(observer.is_some(), Ordering::SeqCst);
+    *slot = observer;
+}
+
+pub fn set_search_observer(observer: Option<Arc<SearchObserver>>) {
+    let mut slot = SEARCH_OBSERVER.write().unwrap();
+    SEARCH_ON.store(observer.is_some(), Ordering::SeqCst);
+    *slot = observer;
+}
+
+pub fn set_generator_observer(observer: Option<Arc<GeneratorObserver>>) {
+    let mut slot = GENERATOR_OBSERVER.write().unwrap();
+    GENERATOR_ON.store(observer.is_some(), Ordering::SeqCst);
+    *slot = observer;
+}
+
+#[inline(always)]
+pub fn board_observed() -> bool {
+    BOARD_ON.load(Ordering::Relaxed)
+}
+
+#[inline(always)]
+pub fn search_observed() -> bool {
+    SEARCH_ON.load(Ordering::Relaxed)
+}
+
+#[inline(always)]
+pub fn generator_observed() -> bool {
+    GENERATOR_ON.load(Ordering::Relaxed)
+}
+
+#[inline(never)]
+pub fn board_event(event: BoardEvent) {
+    let observer = BOARD_OBSERVER.read().unwrap().clone();
+    if let Some(observer) = observer {
+        observer(&event);
+    }
+}
+
+#[inline(never)]
+pub fn search_event(event: SearchEvent) {
+    let observer = SEARCH_OBSERVER.read().unwrap().clone();
+    if let Some(observer) = observer {
+        observer(&event);
+    }
+}
+
+#[inline(never)]
+pub fn generator_event(event: GeneratorEvent) {
+    let observer = GENERATOR_OBSERVER.read().unwrap().clone();
+    if let Some(observer) = observer {
+        observer(&event);
+    }
+}
+
+/// Emits `NodeExit` when a search node is left, however it is left.
+pub struct NodeGuard;
+
+impl Drop for NodeGuard {
+    fn drop(&mut self) {
+        if search_observed() {
+            search_event(SearchEvent::NodeExit);
+        }
+    }
+}
+
+/// Deterministic 64-bit digest of whatever the searcher uses as its cache key, so that the
+/// hooks do not depend on the shape of that key.
+pub fn key_digest<K: Hash>(key: &K) -> u64 {
+    let mut hasher = rustc_hash::FxHasher::default();
+    key.hash(&mut hasher);
+    hasher.finish()
+}
+
+/// Everything a `Board` keeps besides piece placement and turn, for exact state comparison.
+#[derive(Debug, Clone, PartialEq, Eq)]
+pub struct BoardInternals {
+    pub en_passant_target_stack: Vec<u64>,
+    pub castle_rights_stack: Vec<u64>,
+    pub halfmove_clock_stack: Vec<u64>,
+    pub fullmove_clock: u64,
+    /// Non-zero entries of the repetition map, sorted by key.
+    pub position_counts: Vec<(u64, u64)>,
+    pub max_seen_position_count_stack: Vec<u64>,
+    pub current_position_hash: u64,
+}
